@@ -48,7 +48,7 @@ Ret(a, res) == /\ hist' = IF Record THEN Append(hist, [a |-> a, op |-> Cur(a).op
                /\ Goto(a, "next")
 Keep == UNCHANGED <<content, exists, holders, mheld, loc>>
 
-WantsEx(o) == o.op \in {"write", "transform"} \/ (o.op = "hold" /\ o.mode \in {"w", "create", "wx"})
+WantsEx(o) == o.op \in {"write", "transform"} \/ (o.op = "hold" /\ o.mode \in {"w", "create", "wx", "wa"})   \* wa: O_WRONLY|O_APPEND
 WantsTrunc(o) == o.op = "write" \/ (o.op = "hold" /\ o.mode = "create")
 Mode(o) == IF WantsEx(o) /\ Bug # "WriteShared" THEN "ex" ELSE "sh"
 Compatible(a, m) == IF m = "ex" THEN \A h \in holders : h[1] = a ELSE \A h \in holders : h[2] = "sh" \/ h[1] = a
@@ -56,8 +56,10 @@ Compatible(a, m) == IF m = "ex" THEN \A h \in holders : h[1] = a ELSE \A h \in h
 NextOp(a) == /\ pc[a] = "next" /\ ip[a] < Len(prog[a])
              /\ ip' = [ip EXCEPT ![a] = @ + 1]
              \* Mutex.Lock, and holders of a second file (modes "cf" / "wf": Create / Edit of a FIFO, whose truncation
-             \* fails and is tolerated), are exclusive holders of a lock domain of their own
-             /\ pc' = [pc EXCEPT ![a] = IF prog[a][ip[a] + 1].op = "mutex" \/ prog[a][ip[a] + 1].mode \in {"cf", "wf"} THEN "m_open" ELSE "open"]
+             \* fails and is tolerated; modes "excl" / "wnew": O_RDWR|O_CREATE with and without O_EXCL on a file that does not
+             \* exist when the run starts - that an O_EXCL open fails when the file is already there is not modelled, the
+             \* model lets it acquire), are exclusive holders of a lock domain of their own
+             /\ pc' = [pc EXCEPT ![a] = IF prog[a][ip[a] + 1].op = "mutex" \/ prog[a][ip[a] + 1].mode \in {"cf", "wf", "excl", "wnew"} THEN "m_open" ELSE "open"]
              /\ loc' = [loc EXCEPT ![a] = NoLoc]
              /\ UNCHANGED <<prog, content, exists, holders, mheld, faults, hist>>
 
